@@ -437,6 +437,12 @@ func (ipfs *Connector) pinProgress(ctx context.Context, hash cid.Cid, maxDepth a
 				return ctx.Err()
 			default:
 				if err == io.EOF {
+					// When ipfs hits an error after it started
+					// streaming, it ends the response normally
+					// and reports the error in a trailer.
+					if errMsg := res.Trailer.Get("X-Stream-Error"); errMsg != "" {
+						return fmt.Errorf("error pinning %s: %s", hash, errMsg)
+					}
 					return nil // clean exit. Pinned!
 				}
 				return err // error decoding
